@@ -21,6 +21,10 @@ Inductive mapkind := Haldane | Kosambi.
 Definition mapfn (k : mapkind) : R -> R := match k with Haldane => haldane | Kosambi => kosambi end.
 Definition invmapfn (k : mapkind) : R -> R := match k with Haldane => haldane_inv | Kosambi => kosambi_inv end.
 
+(** extended-real value of a map function on a distance that may be +inf (chromosome start) or NaN (marker on a
+    chromosome absent from the map): numpy gives exp(-inf) = 0 and tanh(inf) = 1, hence exactly one half at +inf *)
+Inductive xreal := XR (r : R) | XNaN.
+
 (** ** interval evaluator *)
 Module F := SpecificFloat BigIntRadix2.
 Module I := FloatIntervalFull F.
